@@ -145,6 +145,13 @@ class Stdlib:
                         return EnumMember(obj.name, attr, v)
                     return v
             raise Unsupported(f'class attr {obj.name}.{attr}', node)
+        if isinstance(obj, ExtRef) and obj.dotted.startswith('seismic_zfp.') and obj.dotted.count('.') == 1:
+            # `import seismic_zfp` ... seismic_zfp.utils.read_range_file: an entity of a repo module
+            m = I.prog.modules.get(obj.dotted.split('.')[1])
+            if m is not None:
+                r = I.prog.resolve_name(m, attr)
+                if r is not None and not isinstance(r, tuple):
+                    return r
         if isinstance(obj, ExtRef):
             for hook in self.attr_hooks:
                 r = hook(I, obj, attr)
